@@ -33,7 +33,8 @@ WANT = ["hlsl", "msl", "glsl"]
 # first match wins; `zq..v` are the benign baseline names of user entities).
 PATTERNS = {
     "hlsl": [
-        (r"^(Construct|ZeroValue|LoadedStorageValueFrom|RayDescFrom)|^(Get|Set)Mat(Vec|Scalar)?.*On|^ret_|^Naga[A-Z]|^_?naga_|^nagaTexture|^__(get|set)_",
+        (r"^(Construct|ZeroValue|LoadedStorageValueFrom|RayDescFrom)|^(Get|Set)Mat(Vec|Scalar)?.*On|^ret_|^Naga[A-Z]|^_?naga_|^nagaTexture|^__(get|set)_"
+         r"|^Get(Committed|Candidate)Intersection$",
          "helper-function-name"),
         (r"^naga(Comparison)?SamplerHeap$", "sampler-heap-name"),
         (r"^(Vertex|Fragment|Compute)(Input|Output)_", "{Stage}{Input|Output}_{ep}"),
@@ -143,7 +144,7 @@ def fresh_targets(rng, pool, used, k):
 def make_variants(rng, canon_names, all_idents, pools, harvest, n):
     """plans over the canonical names; returns list of (kind, plan)"""
     names = sorted(canon_names)
-    kinds = ["keywords", "generated", "siblings", "case", "unicode", "mixed_all", "generated", "keywords"]
+    kinds = ["keywords", "siblings", "mixed_all", "case", "unicode", "keywords", "generated", "siblings"]
     out = []
     for v in range(n):
         r = rng.fork("v%d" % v)
@@ -196,13 +197,13 @@ def check_text(backend_key, base, new, info, ep_names, spec, rep, files, kind, p
     if fwd is None:
         stats.setdefault("shape_changes", []).append((b, dict(plan), conflicts, files, stats.get("_c")))
         return
-    for i, mb, mv in P.member_diffs(bt, nt)[:3]:
+    for i, mb, mv in P.member_diffs(bt, nt):
         rep.report("%s:undeclared-member" % b,
                    what_prefix + "accesses a member %r (token %d, baseline %r) that no struct of the output declares: "
                    "declaration and reference are spelled differently" % (mv, i, mb), files)
     # every reference must resolve (C scoping, independent scan) to the declaration it resolves to in the baseline
     diffs = P.resolution_diffs(bt, nt)
-    for i, db, dn in diffs[:3]:
+    for i, db, dn in diffs:
         name = nt[i][1]
         if dn is None and db is not None and name in plan.values():
             # the user's declaration is spelled differently (escaped) while this use keeps the raw name and now denotes
@@ -213,6 +214,10 @@ def check_text(backend_key, base, new, info, ep_names, spec, rep, files, kind, p
                            name, i, db, nt[db][1]), files)
             continue
         cls = pattern_of(name, b)
+        single = {k: v for k, v in plan.items() if v == name or v == bt[i][1]}
+        if single and len(plan) > 1:
+            files = dict(files)
+            files["candidate_minimal_renaming.json"] = json.dumps(single, ensure_ascii=False)
         if db is None and bt[i][1] == name and cls == re.sub(r"\d+", "N", name):
             cls = "target-builtin-name"      # a builtin of the target language that the writer emits and the table lacks
         rep.report("%s:clash:%s" % (b, cls),
@@ -262,7 +267,16 @@ def entry_points(lex):
 
 def whole_program(ctx, tools, spec, tables, n_corpus, n_variants, rep):
     rng = ctx.rng.fork("programs")
-    corpus = rng.shuffle(nagarun.corpus())[:n_corpus]
+    allc = rng.shuffle(nagarun.corpus())
+    # shaders with samplers / textures first (their outputs contain the sampler-heap and texture helper names),
+    # then the rest; the quick tier takes a prefix of each group
+    res_sh = [c for c in allc if re.search(r"\bsampler(_comparison)?\b|texture_", c[1])]
+    res_sh.sort(key=lambda c: len(c[1]))
+    res_sh = res_sh[:12]
+    res_sh = rng.shuffle(res_sh)
+    others = [c for c in allc if c not in res_sh]
+    n_res = min(len(res_sh), max(1, n_corpus // 3)) if n_corpus < len(allc) else len(res_sh)
+    corpus = res_sh[:n_res] + others[:max(0, n_corpus - n_res)] if n_corpus < len(allc) else allc
     progs = list(P.SMALL_PROGRAMS) + corpus
     toks = lexcorr.tokens_impl(tools, [s.encode("utf-8", "surrogateescape") for _, s in progs])
     kwpool = sorted(set(spec["hlsl"]) | set(spec["msl"]) | set(spec["glsl"]) | set(spec["hlsl_ci"]) |
@@ -273,7 +287,9 @@ def whole_program(ctx, tools, spec, tables, n_corpus, n_variants, rep):
              "kwsib": sorted({v for w in kwpool for v in P.sibling_forms(w)})}
     stats = {"programs": 0, "programs_without_user_names": 0, "variants": 0, "frontend_rejected_variants": 0,
              "outputs_checked": 0, "identifiers_mapped": 0, "entry_points_checked": 0, "baseline_backend_errors": 0,
-             "variant_kinds": {}, "renamed_identifiers": 0}
+             "variant_kinds": {}, "renamed_identifiers": 0, "generated_names_harvested": 0,
+             "generated_names_tried_module_scope": 0, "generated_names_tried_local": 0, "generated_names_no_entity": 0,
+             "programs_with_sampler_or_texture": sum(1 for _n, src in progs if re.search(r"\bsampler|texture_", src))}
     # 1. canonical (benign) baselines
     canon = []
     jobs = []
@@ -319,8 +335,28 @@ def whole_program(ctx, tools, spec, tables, n_corpus, n_variants, rep):
                 rep.report("%s:clash:%s" % (bk.split(":")[0], pattern_of(nm, bk.split(":")[0])),
                            "%s: the output for %s declares %r twice in one scope (%s, %s)" % (bk, c["name"], nm, vkind, where),
                            {"input.wgsl": c["src"], "output.txt": text})
+        # systematic: every generated (non-user) identifier of the baseline outputs that the namer would issue unchanged
+        # is given to a module-scope user entity and to a function-local user entity of this program
+        gen_targets = set()
+        for bk, (text, info) in o.items():
+            if text == "ERR":
+                continue
+            b0 = bk.split(":")[0]
+            for t in set(ctok.identifiers(ctok.tokens(text))) - idents:
+                if issued_unchanged(b0, t, tables) and P.wgsl_ident_ok(t) and not P.predeclared_like(t) and t not in P.EXCLUDED_TARGETS:
+                    gen_targets.add(t)
+        sc = P.decl_scopes(c["lex"], c["kinds"])
+        mod_ents = [nm for nm in c["names"] if "module" in sc.get(nm, ())]
+        loc_ents = [nm for nm in c["names"] if "local" in sc.get(nm, ()) and "module" not in sc.get(nm, ())]
+        plans_m, unc_m = P.pack_targets(sorted(gen_targets), mod_ents)
+        plans_l, unc_l = P.pack_targets(sorted(gen_targets), loc_ents)
+        stats["generated_names_harvested"] += len(gen_targets)
+        stats["generated_names_tried_module_scope"] += len(gen_targets) - len(unc_m)
+        stats["generated_names_tried_local"] += len(gen_targets) - len(unc_l)
+        stats["generated_names_no_entity"] += len(unc_m) + len(unc_l)
+        systematic = [("generated_module", pl) for pl in plans_m] + [("generated_local", pl) for pl in plans_l]
         r = rng.fork("prog/" + c["name"])
-        for kind, plan in make_variants(r, c["names"], idents, pools, harvest, n_variants):
+        for kind, plan in systematic + make_variants(r, c["names"], idents, pools, harvest, n_variants):
             vlex = P.rename(c["lex"], c["kinds"], c["frozen"], plan)
             vid = len(vjobs)
             vjobs.append({"id": vid, "src": " ".join(vlex), "want": WANT})
@@ -371,7 +407,8 @@ def check_variants(ctx, tools, vjobs, meta, spec, rep, stats):
             stats["_c"] = c
             check_text(vk, btext, vtext, vinfo, eps, spec, rep, f2, kind, plan, stats)
             stats.pop("_c", None)
-            if len(ctx.cov["samples"]) < 5 and kind not in ("unicode", "probe") and bk == "hlsl":
+            if len(ctx.cov["samples"]) < 6 and kind not in ("unicode", "probe") and bk == "hlsl" and \
+                    kind not in [x.get("variant") for x in ctx.cov["samples"] if isinstance(x, dict)]:
                 ctx.sample({"program": c["name"], "variant": kind, "renaming": plan})
 
 
@@ -572,7 +609,7 @@ def run(ctx):
     T["namer_correspondence"] = round(time.time() - t0, 1); t0 = time.time()
     # the search on the implementation (always run)
     before = len(ctx.violations)
-    wstats = whole_program(ctx, tools, spec, tables, ctx.scale(14, 172), ctx.scale(8, 60), rep)
+    wstats = whole_program(ctx, tools, spec, tables, ctx.scale(12, 172), ctx.scale(5, 40), rep)
     T["whole_program"] = round(time.time() - t0, 1); t0 = time.time()
     pstats = keyword_probe(ctx, tools, spec, rep, ctx.scale(12, 10000))
     T["keyword_probe"] = round(time.time() - t0, 1); t0 = time.time()
